@@ -15,8 +15,9 @@ class TLCError(RuntimeError):
     pass
 
 
-def run_tlc(chk, module, cfg=None, cfg_text=None, workers=16, timeout=1200, env=None, simulate=None,
-            depth=None, extra=(), expect_violation=False, record=True, deadlock=False, mode='check', xmx='8g'):
+def run_tlc(chk, module, cfg=None, cfg_text=None, workers=16, timeout=300, env=None, simulate=None,
+            depth=None, extra=(), expect_violation=False, record=True, deadlock=False, mode='check', xmx='8g',
+            module_text=None):
     """Run TLC on spec/<module>.tla.  Returns dict(generated, distinct, depth, outcome, out, ...).
     outcome: 'ok' | 'invariant' | 'property' | 'deadlock' | 'assume' | 'error'."""
     wd = os.path.join(chk.scratch, f'tlc-{module}-{int(time.time()*1000)%10**9}')
@@ -30,7 +31,13 @@ def run_tlc(chk, module, cfg=None, cfg_text=None, workers=16, timeout=1200, env=
         cfg = os.path.join(SPEC, f'{module}.cfg')
     elif not os.path.isabs(cfg):
         cfg = os.path.join(SPEC, cfg)
-    cmd = ['java', '-XX:+UseParallelGC', f'-Xmx{xmx}', '-cp', JAR, 'tlc2.TLC', '-metadir', os.path.join(wd, 'meta'),
+    specfile = os.path.join(SPEC, f'{module}.tla')
+    if module_text is not None:
+        # generated root module (e.g. MC_* with literal constants); library modules come from spec/
+        specfile = os.path.join(wd, f'{module}.tla')
+        with open(specfile, 'w') as f:
+            f.write(module_text)
+    cmd = ['java', '-XX:+UseParallelGC', f'-Xmx{xmx}', f'-DTLA-Library={SPEC}', '-cp', JAR, 'tlc2.TLC', '-metadir', os.path.join(wd, 'meta'),
            '-noGenerateSpecTE', '-config', cfg, '-workers', str(workers)]
     if not deadlock:
         cmd += ['-deadlock']
@@ -38,12 +45,12 @@ def run_tlc(chk, module, cfg=None, cfg_text=None, workers=16, timeout=1200, env=
         cmd += ['-simulate', simulate]
     if depth:
         cmd += ['-depth', str(depth)]
-    cmd += list(extra) + [os.path.join(SPEC, f'{module}.tla')]
+    cmd += list(extra) + [specfile]
     e = dict(os.environ)
     e.update({k: str(v) for k, v in (env or {}).items()})
     t0 = time.time()
     try:
-        p = subprocess.run(cmd, cwd=SPEC, env=e, capture_output=True, text=True, timeout=timeout)
+        p = subprocess.run(cmd, cwd=os.path.dirname(specfile), env=e, capture_output=True, text=True, timeout=timeout)
     except subprocess.TimeoutExpired as ex:
         subprocess.run(['pkill', '-f', wd], check=False)
         raise TLCError(f'TLC timeout on {module} after {timeout}s')
